@@ -73,17 +73,36 @@ QProdOver(S, f(_)) == FoldSet(LAMBDA x, acc : QMul(f(x), acc), QOne, S)
 
 ------------------------------------------------------------------------------
 (* reactions *)
+(* Fractional (power-law) orders.  A reaction may carry `half`: for a species s in it, half a unit *)
+(* of s is moved from the ACTIVE to the INACTIVE reactant part: the active coefficient (the       *)
+(* exponent) is reac[s] - 1/2, the inactive one ireac[s] + 1/2, so every net coefficient stays an *)
+(* integer.  sqrt(c) is kept exact by evaluating such systems at perfect-square concentrations;   *)
+(* in polynomials the variable "sqrt_<s>" stands for c_s^(1/2).                                   *)
+Hf(r, s) == IF s \in DOMAIN r.half THEN r.half[s] ELSE 0
+SqrtVar(s) == "sqrt_" \o s
+SqrtVars == { SqrtVar(s) : s \in Species }
+ActiveQ(r, s) == Norm(<<2 * Co(r.reac, s) - Hf(r, s), 2>>)          \* active reactant coefficient
+InactiveQ(r, s) == Norm(<<2 * Co(r.ireac, s) + Hf(r, s), 2>>)       \* inactive reactant coefficient
+OrderQ(r) == QSumOver(Species, LAMBDA s : ActiveQ(r, s))
+RootCands == { <<n, d>> : n \in 0..50, d \in 1..7 }
+IsSquare(q) == \E r \in RootCands : QMul(r, r) = Norm(q)
+QSqrt(q) == Norm(CHOOSE r \in RootCands : QMul(r, r) = Norm(q))
+\* exponent vector of the concentration product
+ExpVec(r) == Sparse([s \in DOMAIN r.reac |-> r.reac[s] - Hf(r, s)])
+             @@ [v \in { SqrtVar(s) : s \in Support(r.half) } |-> 1]
 Net(r) == [s \in Species |-> Co(r.prod, s) + Co(r.iprod, s) - Co(r.reac, s) - Co(r.ireac, s)]
 Order(r) == SumOver(Species, LAMBDA s : Co(r.reac, s))
 Keys(r) == Support(r.reac) \cup Support(r.prod) \cup Support(r.ireac) \cup Support(r.iprod)
 IsShape(r) ==
     /\ IsCoefMap(r.reac) /\ IsCoefMap(r.prod) /\ IsCoefMap(r.ireac) /\ IsCoefMap(r.iprod)
+    /\ Support(r.half) \subseteq Support(r.reac) /\ \A s \in DOMAIN r.half : r.half[s] \in {0, 1}
     /\ \E s \in Species : Net(r)[s] # 0     \* a reaction must change something
 Touched(sys) == UNION { Keys(sys[i]) : i \in DOMAIN sys }
 Untouched(sys) == Species \ Touched(sys)
 
 (* the law, as numbers.  cc : species -> rational *)
-ConcProd(r, cc) == QProdOver(Support(r.reac), LAMBDA s : QPow(cc[s], r.reac[s]))
+ConcProd(r, cc) == QMul(QProdOver(Support(r.reac), LAMBDA s : QPow(cc[s], r.reac[s] - Hf(r, s))),
+                        QProdOver(Support(r.half), LAMBDA s : QSqrt(cc[s])))
 RateOf(r, cc) == QMul(r.kv, ConcProd(r, cc))
 Contribution(r, cc) == [s \in Species |-> QMul(Q(Net(r)[s]), RateOf(r, cc))]
 Rates(sys, cc) ==
@@ -100,12 +119,12 @@ RatesFed(sys, cc, fd) == IF fd.on THEN RatesCSTR(sys, cc, fd) ELSE Rates(sys, cc
 
 (* stoichiometric matrices, rows = reactions (N = net) *)
 N(sys) == [i \in 1..Len(sys) |-> Net(sys[i])]
-ActiveReacM(sys) == [i \in 1..Len(sys) |-> [s \in Species |-> Co(sys[i].reac, s)]]
+ActiveReacM(sys) == [i \in 1..Len(sys) |-> [s \in Species |-> ActiveQ(sys[i], s)]]   \* rationals
 AllReacM(sys) == [i \in 1..Len(sys) |-> [s \in Species |-> Co(sys[i].reac, s) + Co(sys[i].ireac, s)]]
 ActiveProdM(sys) == [i \in 1..Len(sys) |-> [s \in Species |-> Co(sys[i].prod, s)]]
 AllProdM(sys) == [i \in 1..Len(sys) |-> [s \in Species |-> Co(sys[i].prod, s) + Co(sys[i].iprod, s)]]
 \* coefficient matrix of the ACTIVE parts only, rows = substances (util.stoich.get_coeff_mtx)
-CoeffMtx(sys) == [s \in Species |-> [i \in 1..Len(sys) |-> Co(sys[i].prod, s) - Co(sys[i].reac, s)]]
+CoeffMtx(sys) == [s \in Species |-> [i \in 1..Len(sys) |-> QSub(Q(Co(sys[i].prod, s)), ActiveQ(sys[i], s))]]
 \* explicitly passed per-reaction rate expressions replace the constants: "all" reactions, or the
 \* odd-numbered ones only ("mixed": the others keep their own constant)
 OverrideSys(sys, pattern) ==
@@ -129,13 +148,13 @@ IsPoly(P) == /\ \A m \in P : m[1][1] # 0 /\ m[1][2] > 0
 PolyAdd(P1, P2) == PolyNorm(SetToSeq(P1) \o SetToSeq(P2))
 
 RawTerms(sys, s) ==
-    [i \in 1..Len(sys) |-> <<Q(Net(sys[i])[s]), sys[i].k, Sparse(sys[i].reac)>>]
+    [i \in 1..Len(sys) |-> <<Q(Net(sys[i])[s]), sys[i].k, ExpVec(sys[i])>>]
 \* per-substance rate polynomial, rate constants free (p = index of the constant)
 RatePoly(sys, s) == PolyNorm(RawTerms(sys, s))
 KvOf(sys, p) == sys[CHOOSE i \in DOMAIN sys : sys[i].k = p].kv
 \* the same with every rate constant replaced by its value
 InlineTerms(sys, s) ==
-    [i \in 1..Len(sys) |-> <<QMul(Q(Net(sys[i])[s]), sys[i].kv), 0, Sparse(sys[i].reac)>>]
+    [i \in 1..Len(sys) |-> <<QMul(Q(Net(sys[i])[s]), sys[i].kv), 0, ExpVec(sys[i])>>]
 RatePolyInlined(sys, s) == PolyNorm(InlineTerms(sys, s))
 \* feed term F*(cf_s - c_s) as a polynomial in the variables feedratio, fc_<s>, <s>
 FeedPoly(s) == { <<QOne, 0, EMul(EOne(FeedVar), EOne(FcVar(s)))>>,
@@ -154,7 +173,10 @@ FeedEnv(fd) == IF fd.on
                THEN [v \in {FeedVar} \cup { FcVar(s) : s \in Species } |->
                         IF v = FeedVar THEN fd.F ELSE fd.cf[CHOOSE s \in Species : FcVar(s) = v]]
                ELSE EmptyMap
-VEnv(cc, fd) == cc @@ FeedEnv(fd)
+SqrtEnv(cc) == [v \in { SqrtVar(s) : s \in { x \in Species : IsSquare(cc[x]) } } |->
+                   QSqrt(cc[CHOOSE s \in Species : SqrtVar(s) = v])]
+NeedsRoots(sys) == \E i \in DOMAIN sys : Support(sys[i].half) # {}
+VEnv(cc, fd) == cc @@ (IF NeedsRoots(rsys) THEN SqrtEnv(cc) ELSE EmptyMap) @@ FeedEnv(fd)
 
 ------------------------------------------------------------------------------
 (* state machine *)
@@ -163,7 +185,7 @@ Init == /\ rsys = <<>> /\ subst = <<>> /\ c = EmptyMap /\ feed = NoFeed /\ phase
 
 MkReaction(shape, idx, kv) ==
     [reac |-> Sparse(shape.reac), prod |-> Sparse(shape.prod), ireac |-> Sparse(shape.ireac),
-     iprod |-> Sparse(shape.iprod), k |-> idx, kv |-> kv]
+     iprod |-> Sparse(shape.iprod), half |-> Sparse(shape.half), k |-> idx, kv |-> kv]
 
 AddReaction(shape, kv) ==
     /\ phase = "build" /\ IsShape(shape) /\ IsQ(kv)
@@ -180,6 +202,8 @@ SetState(o, cc, ph) ==
     /\ Touched(rsys) \subseteq { o[i] : i \in DOMAIN o }
     /\ DOMAIN cc = Species /\ \A s \in Species : IsQ(cc[s])
     /\ DOMAIN ph = Species /\ \A s \in Species : ph[s] \in Nat
+    \* half-integer orders are evaluated at perfect squares (exact square roots)
+    /\ \A i \in DOMAIN rsys : \A s \in Support(rsys[i].half) : IsSquare(cc[s])
     /\ subst' = o /\ c' = cc /\ sphase' = ph /\ phase' = "ready"
     /\ UNCHANGED <<rsys, feed, hist>>
 
@@ -244,8 +268,9 @@ PermutationInvariant == Done =>
 \* a species that is nowhere an active reactant never occurs in an exponent vector
 InactiveNotInExponent == Done =>
     \A s \in Species : \A m \in RatePoly(rsys, s) :
-        /\ \E i \in DOMAIN rsys : rsys[i].k = m[2] /\ m[3] = rsys[i].reac
-        /\ \A v \in DOMAIN m[3] : \E i \in DOMAIN rsys : Co(rsys[i].reac, v) > 0
+        /\ \E i \in DOMAIN rsys : rsys[i].k = m[2] /\ m[3] = ExpVec(rsys[i])
+        /\ \A v \in DOMAIN m[3] : \E i \in DOMAIN rsys : v \in DOMAIN ExpVec(rsys[i])
+        /\ \A v \in DOMAIN m[3] \cap Species : \E i \in DOMAIN rsys : Co(rsys[i].reac, v) > 0
 
 \* substances on neither side of any reaction get zero
 UntouchedGetNothing == Done =>
@@ -287,9 +312,11 @@ PointSeparates == (Done /\ NoZeroValue) =>
 StoichDecomposes == Done =>
     \A i \in DOMAIN rsys : \A s \in Species :
         /\ N(rsys)[i][s] = AllProdM(rsys)[i][s] - AllReacM(rsys)[i][s]
-        /\ AllReacM(rsys)[i][s] >= ActiveReacM(rsys)[i][s] /\ AllProdM(rsys)[i][s] >= ActiveProdM(rsys)[i][s]
-        /\ CoeffMtx(rsys)[s][i] = ActiveProdM(rsys)[i][s] - ActiveReacM(rsys)[i][s]
-        /\ Order(rsys[i]) = SumOver(Species, LAMBDA x : ActiveReacM(rsys)[i][x])
+        /\ QLe(ActiveReacM(rsys)[i][s], Q(AllReacM(rsys)[i][s])) /\ AllProdM(rsys)[i][s] >= ActiveProdM(rsys)[i][s]
+        /\ QAdd(ActiveQ(rsys[i], s), InactiveQ(rsys[i], s)) = Q(AllReacM(rsys)[i][s])
+        /\ CoeffMtx(rsys)[s][i] = QSub(Q(ActiveProdM(rsys)[i][s]), ActiveReacM(rsys)[i][s])
+        /\ OrderQ(rsys[i]) = QSumOver(Species, LAMBDA x : ActiveReacM(rsys)[i][x])
+        /\ (Support(rsys[i].half) = {} => OrderQ(rsys[i]) = Q(Order(rsys[i])))
 
 PolysNormal == Done => \A s \in Species : IsPoly(RatePolyFed(rsys, s, Fed(feed, s)))
 
@@ -302,7 +329,7 @@ MapSeq(f) == LET ks == SetToSeq(DOMAIN f) IN [i \in 1..Len(ks) |-> <<ks[i], f[ks
 MonoOut(m) == <<m[1], m[2], MapSeq(m[3])>>
 PolyOut(P) == LET ms == SetToSeq(P) IN [i \in 1..Len(ms) |-> MonoOut(ms[i])]
 RxnOut(r) == [reac |-> MapSeq(r.reac), prod |-> MapSeq(r.prod), ireac |-> MapSeq(r.ireac),
-              iprod |-> MapSeq(r.iprod), k |-> r.k, kv |-> r.kv]
+              iprod |-> MapSeq(r.iprod), half |-> MapSeq(r.half), k |-> r.k, kv |-> r.kv]
 BySubst(f) == [i \in 1..Len(subst) |-> f[subst[i]]]
 
 HasIReac == \E i \in DOMAIN rsys : Support(rsys[i].ireac) # {}
@@ -318,6 +345,7 @@ Class == "n" \o ToString(Len(rsys))
          \o (IF feed.usermap THEN "-map" ELSE "") \o (IF hist # <<>> THEN "-h" ELSE "")
          \o (IF \E s \in DOMAIN sphase : sphase[s] > 0 THEN "-ph" ELSE "")
          \o (IF Done /\ ~NoZeroValue THEN "-zero" ELSE "")
+         \o (IF NeedsRoots(rsys) THEN "-half" ELSE "")
          \o (IF Untouched(rsys) \cap { subst[i] : i \in DOMAIN subst } # {} THEN "-u" ELSE "")
 
 FeedOut == IF feed.on THEN [on |-> TRUE, F |-> feed.F, cf |-> BySubst(feed.cf),
@@ -349,11 +377,12 @@ CaseExp == [ net |-> [i \in 1..Len(rsys) |-> BySubst(Net(rsys[i]))],
              aprod |-> [i \in 1..Len(rsys) |-> BySubst(ActiveProdM(rsys)[i])],
              allprod |-> [i \in 1..Len(rsys) |-> BySubst(AllProdM(rsys)[i])],
              coeff |-> BySubst(CoeffMtx(rsys)),
+             coeffint |-> ~NeedsRoots(rsys),   \* get_coeff_mtx is documented for integer coefficients only
              rkeys |-> [i \in 1..Len(rsys) |-> SetToSeq(Keys(rsys[i]))],
              selrev |-> SelOut("rev"), selsub |-> SelOut("sub"),
              ovall |-> OvOut("all"), ovmixed |-> OvOut("mixed"),
              frame |-> TRUE,   \* evaluating is not an action: the caller's variables are left as they were
-             order |-> [i \in 1..Len(rsys) |-> Order(rsys[i])],
+             order |-> [i \in 1..Len(rsys) |-> OrderQ(rsys[i])],
              rvals |-> [i \in 1..Len(rsys) |-> RateOf(rsys[i], c)],
              contrib |-> [i \in 1..Len(rsys) |-> BySubst(Contribution(rsys[i], c))],
              rates |-> BySubst(Rates(rsys, c)),
